@@ -223,6 +223,16 @@ def check(run):
     n_random = 900 if quick else 6000
     for _ in range(n_random):
         cases.append({'spec': c12_gen.random_spec(run.rng), 'tag': 'k%d' % len(cases)})
+    # a slice of the same cases run again with the temp directory behind a symbolic link
+    link_src = [c for c in cases if 'corpus' in c and c['corpus'].startswith(('ctor_', 'multi_'))] + \
+               [c for k, c in enumerate(cases[len(corpus):len(corpus) + len(sweep)]) if k % 9 == 0] + \
+               cases[len(corpus) + len(sweep):][:(40 if quick else 300)]
+    n_link = 0
+    for c in link_src:
+        c2 = {k: v for k, v in c.items() if k != 'corpus'}
+        cases.append(dict(c2, tag='k%d' % len(cases), symlink=True))
+        n_link += 1
+    run.cov['symlinked_tempdir_cases'] = n_link
     corr_every = 1 if quick else 3        # correspondence requests for every case (quick) / every third (thorough)
     process(run, cases, corr_every, full=True)
     run.cov.update({'corpus_cases': len(corpus), 'sweep_cases': len(sweep), 'random_cases': n_random,
@@ -241,10 +251,20 @@ def process(run, cases, corr_every=1, full=True):
     t0 = time.time()
     base = tempfile.mkdtemp(prefix='c12_')
     try:
+        results = [None] * len(jobs)
+        plain = [j for j in jobs if not j[1].get('symlink')]
+        linked = [j for j in jobs if j[1].get('symlink')]
         with ctx.Pool(nproc, initializer=_worker_init, initargs=(common.REPO, base)) as pool:
-            results = [None] * len(jobs)
-            for idx, res in pool.imap_unordered(_worker_run, jobs, chunksize=8):
+            for idx, res in pool.imap_unordered(_worker_run, plain, chunksize=8):
                 results[idx] = res
+        if linked:
+            # the same oracle with the temp directory (user modules AND malt's generated modules) reached through a
+            # symbolic link: file names in source maps and in tracebacks must still be the same spelling
+            os.mkdir(os.path.join(base, 'real'))
+            os.symlink('real', os.path.join(base, 'link'))
+            with ctx.Pool(min(4, nproc), initializer=_worker_init, initargs=(common.REPO, os.path.join(base, 'link'))) as pool:
+                for idx, res in pool.imap_unordered(_worker_run, linked, chunksize=4):
+                    results[idx] = res
     finally:
         shutil.rmtree(base, ignore_errors=True)
     run.cov['case_wall_s'] = round(time.time() - t0, 1)
@@ -263,6 +283,8 @@ def process(run, cases, corr_every=1, full=True):
             continue
         spec = case.get('spec')
         sig = c12_gen.describe(spec) if spec else case.get('corpus', 'src')
+        if case.get('symlink'):
+            sig = 'symlinked-tmp: ' + sig
         nontriv = res['status'] == 'ok'
         run.case(sig, nontriv)
         if nontriv and spec:
@@ -284,6 +306,8 @@ def process(run, cases, corr_every=1, full=True):
         if len(run.samples) < 4 and nontriv and spec and len(spec['fns']) >= 2 and i % 7 == 0:
             run.sample({'case': sig, 'source_tail': res['src'].split('return fn(x)')[-1][-700:], 'outcome': s.get('type'), 'units': s.get('units')})
         for f in res['fails']:
+            if case.get('symlink'):
+                f = dict(f, what='[temp directory reached through a symbolic link] ' + f['what'])
             pending.append((i, case, res, f))
         for c in res['corr']:
             corr_lines.append((i, c))
@@ -433,7 +457,7 @@ def process(run, cases, corr_every=1, full=True):
         if key in seen or len(seen) > 40:
             continue          # one recorded witness per (oracle, class); the rest is counted above
         seen.add(key)
-        run.fail(f['what'], {'src': res['src'], 'entry': res['entry'], 'args': res['args'], 'fn_conv': res['fn_conv'], 'recursive': res.get('recursive', True),
+        run.fail(f['what'], {'src': res['src'], 'entry': res['entry'], 'args': res['args'], 'fn_conv': res['fn_conv'], 'recursive': res.get('recursive', True), 'symlink': bool(case.get('symlink')),
                              'spec': case.get('spec'), 'oracle': f['oracle'], 'corpus': case.get('corpus')}, cls)
 
     # a listed finding whose class was not observed is reported in the evidence (a fix in /repo makes the listing stale;
@@ -461,9 +485,9 @@ def replay(run, path):
     with open(path) as f:
         rep = json.load(f)
     case = rep.get('case', rep)
-    case = {k: v for k, v in case.items() if k in ('src', 'entry', 'args', 'fn_conv', 'spec', 'recursive') and v is not None}
+    case = {k: v for k, v in case.items() if k in ('src', 'entry', 'args', 'fn_conv', 'spec', 'recursive', 'symlink') and v is not None}
     if 'src' not in case:
-        case = {'spec': case['spec']}
+        case = {'spec': case['spec'], 'symlink': case.get('symlink', False)}
     run.translate(['Errors'])
     run.build_and_audit('MaltModel.Props.C12', model_files=MODEL_FILES)
     results = process(run, [dict(case, tag='replay')], 1, full=False)
